@@ -551,6 +551,10 @@ class Transport(threading.Thread, ClosingContextManager):
         self.clear_to_send = threading.Event()
         self.clear_to_send_lock = threading.Lock()
         self.clear_to_send_timeout = 30.0
+        # connection-layer messages generated by the transport thread itself
+        # (replies to peer requests, keepalives) while a key exchange is in
+        # progress; sent right after NEWKEYS (see _send_or_defer)
+        self._kex_deferred = []
         self.log_name = "paramiko.transport"
         self.logger = util.get_logger(self.log_name)
         self.packetizer.set_log(self.logger)
@@ -1957,11 +1961,40 @@ class Transport(threading.Thread, ClosingContextManager):
     def _send_message(self, data):
         self.packetizer.send_message(data)
 
+    def _send_or_defer(self, data):
+        """
+        send a connection-layer message from the transport thread (a reply to
+        a request of the peer, a keepalive).  Only transport-layer and key
+        exchange messages may be sent between KEXINIT and NEWKEYS (RFC 4253
+        section 7.1), and this thread is the one driving the exchange, so it
+        can neither send the message now nor wait: the message is held back
+        and sent by `_parse_newkeys`, ahead of anything user threads have
+        queued in `_send_user_message`.
+        """
+        self.clear_to_send_lock.acquire()
+        try:
+            if self.active and not self.clear_to_send.is_set():
+                self._kex_deferred.append(data)
+                return
+            self._send_message(data)
+        finally:
+            self.clear_to_send_lock.release()
+
     def _send_user_message(self, data):
         """
         send a message, but block if we're in key negotiation.  this is used
         for user-initiated requests.
         """
+        if threading.current_thread() is self:
+            # e.g. a channel's reply to a request or close from the peer, or
+            # a keepalive: waiting here would wait for ourselves.
+            if not self.active:
+                self._log(
+                    DEBUG, "Dropping user packet because connection is dead."
+                )  # noqa
+                return
+            self._send_or_defer(data)
+            return
         start = time.time()
         while True:
             self.clear_to_send.wait(0.1)
@@ -2918,6 +2951,10 @@ class Transport(threading.Thread, ClosingContextManager):
             self.in_kex = False
         self.clear_to_send_lock.acquire()
         try:
+            # first whatever this thread had to hold back during the exchange
+            deferred, self._kex_deferred = self._kex_deferred, []
+            for msg in deferred:
+                self._send_message(msg)
             self.clear_to_send.set()
         finally:
             self.clear_to_send_lock.release()
@@ -2962,7 +2999,7 @@ class Transport(threading.Thread, ClosingContextManager):
                 msg.add(*extra)
             else:
                 msg.add_byte(cMSG_REQUEST_FAILURE)
-            self._send_message(msg)
+            self._send_or_defer(msg)
 
     def _parse_request_success(self, m):
         self._log(DEBUG, "Global request successful.")
@@ -3109,7 +3146,7 @@ class Transport(threading.Thread, ClosingContextManager):
             msg.add_int(reason)
             msg.add_string("")
             msg.add_string("en")
-            self._send_message(msg)
+            self._send_or_defer(msg)
             return
 
         chan = Channel(my_chanid)
@@ -3132,7 +3169,7 @@ class Transport(threading.Thread, ClosingContextManager):
         m.add_int(my_chanid)
         m.add_int(self.default_window_size)
         m.add_int(self.default_max_packet_size)
-        self._send_message(m)
+        self._send_or_defer(m)
         self._log(
             DEBUG, "Secsh channel {:d} ({}) opened.".format(my_chanid, kind)
         )
